@@ -60,7 +60,10 @@ TABLE_PROGRAMS = [
     # intervals with extreme or symbolic bounds; rule variables named like the fresh variables of the natural translation
     "p(#inf..3).", "q(X) :- p(X), X = 1..#sup.", "p((1+#inf)..3).", "p(a..3).", "p(1..a).", "p(-(#sup)..1).", "{p(#inf..1)}.", "p(X) :- q(X), X = #inf..#sup.",
     "p(1..N0) :- q(N0).", "p(N1..3, 1..5) :- q(N1).", "{p(1..N0)} :- q(N0).", "p(N0..N0) :- q(N0).", "p(1..2, N0..N1) :- q(N0), q(N1).", "p(N0, 1..N0) :- q(N0).",
-    "p(1..2, 3..4, N1) :- q(N1).", "{p(N0_0..N0)} :- q(N0), q(N0_0).", "p(1..X) :- q(X), not p(X..2).", "p(X..Y) :- q(X), q(Y), X < Y.",
+    "p(1..2, 3..4, N1) :- q(N1).",
+    # global head variables V1.. against rule variables named V<n> in OTHER rules; the same multi-valued term in two positions
+    "p(X) :- t(X, V2). r(V1) :- q(V1).", "p(X, Y) :- t(X, V3), t(Y, V2). r(V1) :- q(V1).", "r(V1) :- q(V1). p(X) :- t(X, V2).", "p(V2) :- q(V2). t(X, Y) :- q(X), q(Y), X != V1, q(V1).",
+    "s :- t(1..2, 1..2).", "s :- not t(X..Y, X..Y), q(X), q(Y).", "s :- t(X/2, X/2), q(X).", "{t(0..1, 0..1)}.", "t(X..X+1, X..X+1) :- q(X).", "s :- not not t(0..1, 0..1).", "{p(N0_0..N0)} :- q(N0), q(N0_0).", "p(1..X) :- q(X), not p(X..2).", "p(X..Y) :- q(X), q(Y), X < Y.",
 ]
 
 
